@@ -38,7 +38,7 @@ def run(ctx):
         "none/valid/no colon/leading blank/blank in key/empty key/5 kB value/NUL/high bytes/300 headers/contradicting duplicates, CRLF or LF, always closed by the empty line), "
         "semantically wrong but well-formed requests (wrong method for the place, upgrade without announce, unknown version/security, ...), binary, over-long line, a TLS hello, plain HTTP probes "
         "(incl. HTTP/0.9 'GET /'), a response line, bare CRs, only newlines, smux frames before any handshake, an unterminated header block; below the carrier: junk / oversized record / corrupted hello / cleartext "
-        "requests on TLS endpoints, HTTP-level garbage on ws and wss, junk datagrams and bogus KCP segments on udp, junk datagrams / foreign-domain / random-command / response messages on dns. "
+        "requests on TLS endpoints, HTTP-level garbage on ws and wss, junk datagrams and bogus KCP segments on udp, junk datagrams / foreign-domain / random-command / response messages on dns, and a peer that sprays well-formed DATA queries under the small session identifiers other peers are given (every eighth sequence number of the 16-bit range, junk payload; also with a good client already connected that goes on using its session). "
         "LONG STALLS (one scenario per work item): dns endpoint with every stall point and garbage layer at once, good client A first, sdns.ConnectionTimeout lowered to 30 s, the stall lasts until "
         "the listener's once-a-minute expiry sweep has been OBSERVED (hook counter; the number of sweeps needed follows from the measured instants) to run over the silent peers' sessions "
         "(thorough: one sweep more, single-point variants, dns+starttls, and a 40 s stall > smux keep-alive timeout on every other kind); meanwhile every 12 s A opens another logical connection or a new "
